@@ -21,8 +21,8 @@ from checks import c02
 PID = "C01"
 RULE = ("configurations of (base, Moebius map, rotation, translation, scale, k, resampling, solver, fit) within the deviation bound of a centre; "
         "all connected sub-tissues of a base. non-trivial = unique up to scale (nullity 1) with at least one junction; classes = (base, map, k, ne, solver, fit)")
-BOUND = {"quick": "deviation bound d=2 around the centre of 2 bases (+1 seeded), all connected sub-tissues of an 11-cell base (2 configurations each)",
-         "thorough": "d=3 on one base, d=2 on three, full product k x ne x solver x fit on one base, all sub-tissues of a 12-cell base"}
+BOUND = {"quick": "deviation bound d=2 around the centre of 2 bases (+1 seeded), all connected sub-tissues of an 11-cell base (3 configurations each, one with the library's default allow_negatives); point counts 0..16 per interface and mixed per-interface counts; one major-arc family",
+         "thorough": "d=3 on one base, d=2 on three, full product k x ne x solver x fit on one base, all sub-tissues of a 12-cell base (5 configurations)"}
 ASSUMPTIONS = ["tolerance(iii) = 10 x (measured max coefficient error) x sqrt(nnz) x |z| / sigma_min(reference augmented system) + solver term (1e-8 default path, 2e-4/sigma_min iterative back-ends)",
                "instances where force balance does not determine the tensions up to scale (nullity != 1) give no verdict",
                "with k=0 resampling is taken with replace_short_edges=False (contracting border edges moves the far end of inferred interfaces)",
